@@ -4,3 +4,24 @@ package codecs
 func verifPick(name string, tab []int) int {
 	return tab[verifCase(name, 0, len(tab)-1)]
 }
+
+// verifLongFrame builds an n-byte frame whose bytes are a fixed non-periodic
+// pattern except for a few symbolic positions around the 16-bit boundaries (non-zero on request: the
+// pattern itself never has two equal consecutive bytes, so no start code), so
+// frames longer than 64 KiB stay cheap to carry through the executor.
+func verifLongFrame(n int, nonzero bool) []byte {
+	f := make([]byte, n)
+	for i := range f {
+		f[i] = uint8(i*131 + i>>8*29 + i>>16*7 + 1)
+	}
+	for _, at := range []int{0, 65535, 65536, 65537, n - 1} {
+		if at < n {
+			f[at] = verifU8("long.byte")
+			if nonzero {
+				verifAssume(f[at] != 0)
+			}
+		}
+	}
+	return f
+}
+
